@@ -853,6 +853,10 @@ def bounded_by_allocation(rb, t):
         return bounded_by_allocation(rb, t[2]) and bounded_by_allocation(rb, t[3])
     if t[0] == "param":
         return True  # usize parameters of the index helpers (left/right/level) are table subscripts
+    if t[0] == "call" and t[1].split("::")[-1] in ("log2_fast", "level", "leading_zeros", "trailing_zeros", "count_ones", "ilog2"):
+        return True  # at most the bit width
+    if t[0] == "cast":
+        return bounded_by_allocation(rb, t[2])
     return False
 
 
